@@ -2,6 +2,8 @@ package main
 
 import (
 	"fmt"
+	"go/constant"
+	"go/token"
 	"go/types"
 	"sort"
 	"strings"
@@ -134,6 +136,7 @@ func checkC15(p *Program, r *Report) {
 	r.Rule("C15.bijection", "types+SSA", "fixed integer codecs: width-preserving conversion chains around LittleEndian Put/Get", 7)
 	r.Rule("C15.string16", "E6", "String16 header: big-endian 16-bit length written and read", 2)
 	r.Rule("C15.typeencoder", "structure", "TypeEncoder delegates to encoding/binary with its configured order and type", 2)
+	r.Rule("C15.total", "E11", "no explicit panic for a value of the encoder's domain", 9)
 	rule := func(name string) {
 		for _, ri := range r.Rules {
 			if ri.Name == name {
@@ -248,14 +251,44 @@ func checkC15(p *Program, r *Report) {
 			rule("C15.typeencoder")
 			r.Check(typeEncoderDelegates(p, enc, "encoding/binary.Write") == "", "encode.TypeEncoder.Encode", p.Pos(enc.Pos()), "type guard, then binary.Write(buf, m.Endian, d) on every return", typeEncoderDelegates(p, enc, "encoding/binary.Write"))
 			r.Check(typeEncoderDelegates(p, dec, "encoding/binary.Read") == "", "encode.TypeEncoder.Decode", p.Pos(dec.Pos()), "binary.Read(b[:Size], m.Endian, new(m.Type)) on every return", typeEncoderDelegates(p, dec, "encoding/binary.Read"))
-			if ctor := p.Enc.Func("NewTypeEncoderEndian"); ctor != nil {
+			nCtor := 0
+			for _, ctor := range p.FuncsOf(encPath) {
+				if ctor.Parent() != nil || ctor.Signature.Recv() != nil || ctor.Synthetic != "" || len(ctor.Blocks) == 0 {
+					continue
+				}
+				rs := ctor.Signature.Results()
+				if rs.Len() == 0 || namedOf(rs.At(0).Type()) != n {
+					continue
+				}
+				hasOrder := false
+				for _, prm := range ctor.Params {
+					if isNamed(prm.Type(), "encoding/binary", "ByteOrder") {
+						hasOrder = true
+					}
+				}
+				if !hasOrder {
+					continue
+				}
+				nCtor++
+				r.Func(shortFn(ctor))
 				why := typeEncoderCtor(p, ctor)
-				r.Check(why == "", "encode.NewTypeEncoderEndian", p.Pos(ctor.Pos()), "returns a fresh encoder whose Endian is the requested order (default when nil), Type/Size from the sample value", why)
+				r.Check(why == "", "encode."+ctor.Name(), p.Pos(ctor.Pos()), "returns a fresh encoder (its own allocation or a delegate constructor's) whose Endian is the requested order (default when nil)", why)
+			}
+			if nCtor == 0 {
+				r.Unk("encode.NewTypeEncoderEndian", "", "no constructor with a byte-order parameter found")
+			}
+			srcs, sites, why := typeEncoderSizeProvenance(p)
+			if sites == 0 {
+				r.Unk("encode.TypeEncoder.Size provenance", "", "no store to TypeEncoder.Size found")
 			} else {
-				r.Unk("encode.NewTypeEncoderEndian", "", "constructor not found")
+				r.Check(why == "", "encode.TypeEncoder.Size provenance", p.Pos(n.Obj().Pos()), fmt.Sprintf("%d store(s); sources %v: no in-memory size of a possibly padded kind", sites, srcs), why)
 			}
 		default:
 			r.Note("encoder type encode.%s is not classified by this rule set (not analysed)", name)
+		}
+		if name != "TypeEncoder" {
+			rule("C15.total")
+			checkEncoderTotal(p, r, name, boxed, enc, dec, gs, ges)
 		}
 	}
 }
@@ -427,17 +460,28 @@ func typeEncoderDelegates(p *Program, f *ssa.Function, id string) string {
 func init() { checks["C15"] = checkC15 }
 
 // typeEncoderCtor: every non-nil encoder the constructor returns is allocated
-// by this call and its Endian field is the requested byte order.
+// by this call — directly, or by a constructor of this package it delegates to
+// with the byte order passed on — and its Endian field is the requested order.
 func typeEncoderCtor(p *Program, ctor *ssa.Function) string {
-	var endianParam *ssa.Parameter
-	for _, prm := range ctor.Params {
+	idx := -1
+	for i, prm := range ctor.Params {
 		if isNamed(prm.Type(), "encoding/binary", "ByteOrder") {
-			endianParam = prm
+			idx = i
 		}
 	}
-	if endianParam == nil {
+	if idx < 0 {
 		return "no byte-order parameter"
 	}
+	return typeEncoderCtorRec(p, ctor, idx, map[*ssa.Function]bool{})
+}
+
+func typeEncoderCtorRec(p *Program, ctor *ssa.Function, endianIdx int, active map[*ssa.Function]bool) string {
+	if active[ctor] || len(active) > 4 {
+		return "constructor delegation of " + shortFn(ctor) + " does not end in an allocation"
+	}
+	active[ctor] = true
+	defer delete(active, ctor)
+	endianParam := ctor.Params[endianIdx]
 	var fromParam func(v ssa.Value, seen map[ssa.Value]bool) bool
 	fromParam = func(v ssa.Value, seen map[ssa.Value]bool) bool {
 		if seen[v] {
@@ -462,7 +506,37 @@ func typeEncoderCtor(p *Program, ctor *ssa.Function) string {
 			continue
 		}
 		n++
-		al, ok := ret.Results[0].(*ssa.Alloc)
+		v := ret.Results[0]
+		if ex, ok := v.(*ssa.Extract); ok && ex.Index == 0 {
+			v = ex.Tuple
+		}
+		if call, ok := v.(*ssa.Call); ok {
+			g := calleeOf(call)
+			if g == nil || pkgPathOf(g) != encPath || len(g.Blocks) == 0 {
+				return "the encoder returned at " + p.Pos(ret.Pos()) + " comes from a call this rule cannot follow"
+			}
+			j := -1
+			for ai, a := range call.Call.Args {
+				if ai < len(g.Params) && isNamed(g.Params[ai].Type(), "encoding/binary", "ByteOrder") {
+					if c, isC := a.(*ssa.Const); isC && c.IsNil() {
+						// nil means "default order" in the callee exactly when it does here: only acceptable
+						// if this constructor has no order of its own to pass on
+						return "the requested byte order is not passed on to " + shortFn(g)
+					}
+					if fromParam(a, map[ssa.Value]bool{}) {
+						j = ai
+					}
+				}
+			}
+			if j < 0 {
+				return "the requested byte order is not passed on to " + shortFn(g)
+			}
+			if why := typeEncoderCtorRec(p, g, j, active); why != "" {
+				return why
+			}
+			continue
+		}
+		al, ok := v.(*ssa.Alloc)
 		if !ok {
 			return "the encoder returned at " + p.Pos(ret.Pos()) + " is not allocated by this call (shared/cached object: its byte order is whatever an earlier caller asked for)"
 		}
@@ -488,4 +562,375 @@ func typeEncoderCtor(p *Program, ctor *ssa.Function) string {
 		return "no encoder is returned"
 	}
 	return ""
+}
+
+// typeEncoderSizeProvenance: the Size field of a TypeEncoder is what
+// encoding/binary writes for the type. An in-memory size ((reflect.Type).Size,
+// which counts alignment padding) must not reach it for a kind that can have
+// padding (struct, array). Returns the sources found and a reason when violated.
+func typeEncoderSizeProvenance(p *Program) (sources []string, sites int, why string) {
+	reflectPkg := p.Prog.ImportedPackage("reflect")
+	kindConst := func(name string) int64 {
+		if reflectPkg == nil {
+			return -1
+		}
+		if c, ok := reflectPkg.Pkg.Scope().Lookup(name).(*types.Const); ok {
+			if v, ok := constant.Int64Val(c.Val()); ok {
+				return v
+			}
+		}
+		return -1
+	}
+	kStruct, kArray := kindConst("Struct"), kindConst("Array")
+	srcSet := map[string]bool{}
+	seen := map[ssa.Value]bool{}
+	var trace func(v ssa.Value, d int)
+	trace = func(v ssa.Value, d int) {
+		if v == nil || seen[v] || d > 12 {
+			return
+		}
+		seen[v] = true
+		switch x := v.(type) {
+		case *ssa.Const:
+		case *ssa.Convert:
+			trace(x.X, d+1)
+		case *ssa.ChangeType:
+			trace(x.X, d+1)
+		case *ssa.BinOp:
+			trace(x.X, d+1)
+			trace(x.Y, d+1)
+		case *ssa.Phi:
+			for _, e := range x.Edges {
+				trace(e, d+1)
+			}
+		case *ssa.Extract:
+			trace(x.Tuple, d+1)
+		case *ssa.UnOp:
+			if x.Op == token.MUL {
+				// a load: follow the stores to the same field of the same object (local construction)
+				if _, fv, fa := fieldOfAddr(x.X); fa != nil {
+					srcSet["field "+fv.Name()] = true
+				} else {
+					srcSet["load"] = true
+				}
+			} else {
+				trace(x.X, d+1)
+			}
+		case *ssa.Parameter:
+			// callers within the package
+			fn := x.Parent()
+			pi := -1
+			for i, prm := range fn.Params {
+				if prm == x {
+					pi = i
+				}
+			}
+			found := false
+			for _, g := range p.FuncsOf(encPath) {
+				for _, c := range callsIn(g) {
+					if calleeOf(c) == fn && pi < len(c.Common().Args) {
+						found = true
+						trace(c.Common().Args[pi], d+1)
+					}
+				}
+			}
+			if !found {
+				srcSet["parameter "+x.Name()+" of "+shortFn(fn)] = true
+			}
+		case *ssa.Call:
+			if x.Call.IsInvoke() {
+				id := "invoke " + x.Call.Method.FullName()
+				srcSet[id] = true
+				if x.Call.Method.Name() == "Size" && isNamed(x.Call.Value.Type(), "reflect", "Type") {
+					kinds := kindsAt(x.Parent(), x.Call.Value, x.Block())
+					if kinds == nil || kinds[kStruct] || kinds[kArray] {
+						why = fmt.Sprintf("%s: (reflect.Type).Size — the in-memory size, padding included — reaches TypeEncoder.Size for a type that may be a struct or an array, while Encode writes the packed encoding/binary form: GetSize/GetEncodedSize/Decode's count exceed len(Encode(v)) for a padded struct", p.Pos(x.Pos()))
+					}
+				}
+				return
+			}
+			g := calleeOf(x)
+			if g == nil {
+				srcSet["dynamic call"] = true
+				return
+			}
+			if pkgPathOf(g) == encPath && len(g.Blocks) > 0 {
+				for _, ret := range returnsOf(g) {
+					for _, res := range ret.Results {
+						if isIntType(res.Type()) {
+							trace(res, d+1)
+						}
+					}
+				}
+				return
+			}
+			srcSet[funcID(g)] = true
+		default:
+			srcSet[fmt.Sprintf("%T", v)] = true
+		}
+	}
+	for _, f := range p.FuncsOf(encPath) {
+		instrsOf(f, func(_ *ssa.BasicBlock, in ssa.Instruction) {
+			st, ok := in.(*ssa.Store)
+			if !ok {
+				return
+			}
+			sT, fv, fa := fieldOfAddr(st.Addr)
+			if fa == nil || fv.Name() != "Size" || sT == nil {
+				return
+			}
+			if n := namedOf(fa.X.Type()); n == nil || n.Obj().Name() != "TypeEncoder" {
+				return
+			}
+			sites++
+			trace(st.Val, 0)
+		})
+	}
+	return sortedKeys(srcSet), sites, why
+}
+
+// kindsAt: the set of reflect.Kind values the type value t can have when
+// control reaches block target of fn, from the equality tests on t.Kind()
+// along the way (switch lowering included). nil when fn has no such test.
+func kindsAt(fn *ssa.Function, t ssa.Value, target *ssa.BasicBlock) map[int64]bool {
+	kindVals := map[ssa.Value]bool{}
+	instrsOf(fn, func(_ *ssa.BasicBlock, in ssa.Instruction) {
+		if c, ok := in.(*ssa.Call); ok && c.Call.IsInvoke() && c.Call.Method.Name() == "Kind" && c.Call.Value == t {
+			kindVals[c] = true
+		}
+	})
+	if len(kindVals) == 0 {
+		return nil
+	}
+	const nKinds = 32
+	all := func() map[int64]bool {
+		m := map[int64]bool{}
+		for i := int64(0); i < nKinds; i++ {
+			m[i] = true
+		}
+		return m
+	}
+	in := map[*ssa.BasicBlock]map[int64]bool{fn.Blocks[0]: all()}
+	work := []*ssa.BasicBlock{fn.Blocks[0]}
+	for len(work) > 0 {
+		b := work[0]
+		work = work[1:]
+		cur := in[b]
+		for si, s := range b.Succs {
+			out := cur
+			if iff, ok := lastInstr(b).(*ssa.If); ok {
+				if bo, ok := iff.Cond.(*ssa.BinOp); ok && (bo.Op == token.EQL || bo.Op == token.NEQ) {
+					var k int64
+					okK := false
+					if kindVals[bo.X] {
+						k, okK = constInt(bo.Y)
+					} else if kindVals[bo.Y] {
+						k, okK = constInt(bo.X)
+					}
+					if okK {
+						eqEdge := (bo.Op == token.EQL) == (si == 0)
+						out = map[int64]bool{}
+						for v := range cur {
+							if (v == k) == eqEdge {
+								out[v] = true
+							}
+						}
+					}
+				}
+			}
+			dst := in[s]
+			changed := false
+			if dst == nil {
+				dst = map[int64]bool{}
+				in[s] = dst
+				changed = true
+			}
+			for v := range out {
+				if !dst[v] {
+					dst[v] = true
+					changed = true
+				}
+			}
+			if changed {
+				work = append(work, s)
+			}
+		}
+	}
+	if in[target] == nil {
+		return map[int64]bool{}
+	}
+	return in[target]
+}
+
+// splitCond splits a canonical condition "(A op B)" at its top-level operator.
+func splitCond(s string) (a, op, b string, ok bool) {
+	if len(s) < 2 || s[0] != '(' || s[len(s)-1] != ')' {
+		return
+	}
+	s = s[1 : len(s)-1]
+	depth := 0
+	for i := 0; i < len(s); i++ {
+		switch s[i] {
+		case '(':
+			depth++
+		case ')':
+			depth--
+		case ' ':
+			if depth != 0 {
+				continue
+			}
+			for _, o := range []string{" <= ", " < ", " == ", " != "} {
+				if strings.HasPrefix(s[i:], o) {
+					return s[:i], strings.TrimSpace(o), s[i+len(o):], true
+				}
+			}
+		}
+	}
+	return
+}
+
+// panicsInDomain: a panicking path of an encoder method all of whose
+// conditions are comparisons of the subject (the value, or its length) with
+// constants, and whose feasible interval meets the domain [lo,hi]. Paths with
+// a condition this rule cannot read are not judged (returned in unread).
+func panicsInDomain(ps []fpath, subject func(string) bool, lo, hi int64) (bad []string, unread int) {
+	for _, fp := range ps {
+		if !fp.panics {
+			continue
+		}
+		l, h := lo, hi
+		readable := true
+		for _, c := range fp.pc {
+			a, op, b, ok := splitCond(c)
+			if !ok {
+				readable = false
+				break
+			}
+			var k int64
+			subjLeft := false
+			if subject(a) {
+				if _, err := fmt.Sscan(b, &k); err != nil || !isAllDigits(b) {
+					readable = false
+					break
+				}
+				subjLeft = true
+			} else if subject(b) {
+				if _, err := fmt.Sscan(a, &k); err != nil || !isAllDigits(a) {
+					readable = false
+					break
+				}
+			} else {
+				readable = false
+				break
+			}
+			switch {
+			case op == "<" && subjLeft: // x < k
+				if k-1 < h {
+					h = k - 1
+				}
+			case op == "<=" && subjLeft:
+				if k < h {
+					h = k
+				}
+			case op == "<" && !subjLeft: // k < x
+				if k+1 > l {
+					l = k + 1
+				}
+			case op == "<=" && !subjLeft:
+				if k > l {
+					l = k
+				}
+			case op == "==":
+				if k > l {
+					l = k
+				}
+				if k < h {
+					h = k
+				}
+			case op == "!=":
+				// removes one point: the interval stays non-empty unless it is that point
+				if l == h && l == k {
+					h = l - 1
+				}
+			}
+		}
+		if !readable {
+			unread++
+			continue
+		}
+		if l <= h {
+			bad = append(bad, fmt.Sprintf("panics when [%s], i.e. for values %d..%d of the domain %d..%d", fp.pcKey(), l, h, lo, hi))
+		}
+	}
+	return
+}
+
+func isAllDigits(s string) bool {
+	if s == "" {
+		return false
+	}
+	for i, c := range s {
+		if c == '-' && i == 0 && len(s) > 1 {
+			continue
+		}
+		if c < '0' || c > '9' {
+			return false
+		}
+	}
+	return true
+}
+
+// checkEncoderTotal: the codec does not refuse a value of its domain. The
+// domain of the integer codecs is the whole type, of String16 the strings of
+// 0..65535 bytes. Explicit panics are read off the guarded summaries; a panic
+// under conditions that are all constant comparisons of the value (or of its
+// length) and that a domain value satisfies is a violation.
+func checkEncoderTotal(p *Program, r *Report, name string, boxed types.Type, enc, dec, gs, ges *ssa.Function) {
+	lo, hi := int64(0), int64(0)
+	var subject func(string) bool
+	switch {
+	case name == "String16":
+		lo, hi = 0, 65535
+		subject = func(s string) bool { return s == "len(assert:string(d))" }
+	case name == "Bytes" || name == "Dummy":
+		return
+	default:
+		b, ok := boxed.(*types.Basic)
+		if !ok || b.Info()&types.IsInteger == 0 {
+			return
+		}
+		w := uint(8 * p.Sizes.Sizeof(b))
+		if b.Info()&types.IsUnsigned != 0 {
+			lo = 0
+			if w >= 63 {
+				hi = 1<<62 - 1 + 1<<62
+			} else {
+				hi = 1<<w - 1
+			}
+		} else {
+			lo, hi = -(1 << (w - 1)), 1<<(w-1)-1
+		}
+		want := "assert:" + b.String() + "(d)"
+		subject = func(s string) bool { return s == want }
+	}
+	inEnc := func(g *ssa.Function) bool { return pkgPathOf(g) == encPath }
+	for _, f := range []*ssa.Function{enc, gs} {
+		construct := shortFn(f) + " accepts its whole domain"
+		ps, why := flatten(p, f, nil, inEnc)
+		if why != "" {
+			r.Note("%s: not summarised (%s), explicit panics not judged", shortFn(f), why)
+			r.OK(construct, p.Pos(f.Pos()), "no guarded summary; nothing judged")
+			continue
+		}
+		bad, unread := panicsInDomain(ps, subject, lo, hi)
+		np := 0
+		for _, fp := range ps {
+			if fp.panics {
+				np++
+			}
+		}
+		r.Check(len(bad) == 0, construct, p.Pos(f.Pos()), fmt.Sprintf("%d explicit panic path(s), %d under conditions this rule does not read, none on a domain value", np, unread), strings.Join(bad, "; "))
+	}
+	_ = dec
+	_ = ges
 }
